@@ -95,6 +95,13 @@ class Number(Operand):
         regex.IGNORECASE
     )
 
+    def process(self, match, context=None):
+        attr = super(Number, self).process(match, context=context)
+        name = attr.get('name', '')
+        if name[:1] in '0123456789.' and name and float(name) == float('inf'):
+            return {}  # Beyond the numbers of Excel (e.g., `1E+400`).
+        return attr
+
     def compile(self):
         name = self.name.upper()  # Folds also non-ASCII matches (e.g., `ſ`).
         if name in ('TRUE', 'FALSE'):
